@@ -1277,5 +1277,7 @@ def import_into_project(origin, project, schema=None, copytree=None):
         if copytree is None and os.path.isdir(origin):
             copytree = shutil.copytree
 
-        for src, copy in data_mapping:
+        # Analyze the complete origin before copying the first job, so that a
+        # parsing or uniqueness error is raised before anything was imported.
+        for src, copy in list(data_mapping):
             yield src, copy(copytree)
